@@ -28,7 +28,7 @@ import (
 
 var (
 	propID   string
-	tier     = "quick"
+	tier            = "quick"
 	seed     uint64 = 1
 	shard    int
 	nshards  = 1
@@ -283,7 +283,9 @@ func Main(m *testing.M, id string) {
 	start = time.Now()
 	code := m.Run()
 	st.Completed = true
-	flush()
+	if os.Getenv("VERIF_FUZZ") == "" { // the native-fuzz stage keeps its own books (see FuzzCheck)
+		flush()
+	}
 	os.Exit(code)
 }
 
@@ -513,6 +515,61 @@ func Check[C any](t *testing.T, name string, n int, s Spec[C]) {
 			Inconclusive("sub-check " + name + " failed without a property failure (generator or harness problem)")
 		}
 	}
+}
+
+// FuzzCheck registers sub-check "name" as a native (coverage-guided) fuzz target.
+// decode builds a case from the fuzzer's bytes by construction (never by
+// rejection); the spec's oracle runs inside the target. A failing case is saved
+// in the same JSON form as a rapid failure, so that --replay works on it, and a
+// record for the driver is left in VERIF_OUTDIR.
+func FuzzCheck[C any](f *testing.F, name string, s Spec[C], decode func(data []byte) (C, bool), seeds [][]byte) {
+	for _, sd := range seeds {
+		f.Add(sd)
+	}
+	f.Fuzz(func(t *testing.T, data []byte) {
+		c, ok := decode(data)
+		if !ok {
+			return
+		}
+		if err := fuzzEval(name, &s, c); err != nil {
+			t.Fatalf("%v", err)
+		}
+	})
+}
+
+// FuzzRapid registers sub-check "name" as a native fuzz target whose bytes drive
+// the spec's own rapid generator (rapid.MakeFuzz): the typed grammar of the
+// generator is kept, the search is guided by coverage instead of being blind.
+func FuzzRapid[C any](f *testing.F, name string, s Spec[C]) {
+	f.Fuzz(rapid.MakeFuzz(func(rt *rapid.T) {
+		c := s.Gen(rt)
+		if err := fuzzEval(name, &s, c); err != nil {
+			rt.Fatalf("%v", err)
+		}
+	}))
+}
+
+func fuzzEval[C any](name string, s *Spec[C], c C) error {
+	err := Safe(func() error { return s.Prop(c) })
+	if err == nil {
+		return nil
+	}
+	if s.Known != nil && s.Known(c, err) != "" {
+		return nil
+	}
+	dir := filepath.Join(verifDir, "replays", propID)
+	_ = os.MkdirAll(dir, 0o755)
+	raw, _ := json.Marshal(c)
+	path := filepath.Join(dir, fmt.Sprintf("%s-fuzz-%016x.json", name, Hash64(raw)))
+	cf := CaseFile{Property: propID, Check: name, Case: raw, Error: truncate(err.Error(), 4000), Note: "found by the native fuzz stage"}
+	b, _ := json.MarshalIndent(&cf, "", " ")
+	_ = os.WriteFile(path, b, 0o644)
+	if outDir != "" {
+		v := Violation{Check: name, Replay: path, Error: truncate(err.Error(), 2000)}
+		vb, _ := json.Marshal(&v)
+		_ = os.WriteFile(filepath.Join(outDir, fmt.Sprintf("fuzzviol-%09d-%016x.json", len(raw), Hash64(raw))), vb, 0o644)
+	}
+	return err
 }
 
 // Sweep is the handle for an exhaustive / enumerated sub-check.
